@@ -59,6 +59,8 @@ class Contract:
         self.ret_type = None
         self.kind = 'verify'        # 'verify' | 'inline' | 'trusted' (assumed contract, listed as such) | 'external'
         self.pure_flag = False
+        self.native_whens = {}
+        self.native_iters = {'quick': 400, 'thorough': 6000}
         self.bounded_flag = False
         self.gen = None             # native input generator: callable(rnd) -> (args tuple) or dict
         self.fresh_result = False
@@ -90,8 +92,12 @@ class Contract:
         if native_only:
             self.native_ensures_l.append((name or 'npost%d' % len(self.native_ensures_l), e)); return self
         self.ensures_l.append((name or 'post%d' % len(self.ensures_l), e)); return self
-    def raises(self, exc, when=None, exact=True, msg=None):
-        self.raises_l.append((exc, when, exact)); self.raise_msgs[exc] = msg; return self
+    def raises(self, exc, when=None, exact=True, msg=None, native_when=None):
+        """native_when: a stricter condition used only when the clause is evaluated on the real function (bounded stand-in)"""
+        self.raises_l.append((exc, when, exact)); self.raise_msgs[exc] = msg
+        if native_when is not None:
+            self.native_whens[exc] = native_when
+        return self
     def modifies(self, *es):
         self.modifies_l += list(es); return self
     def pure(self):
@@ -114,8 +120,9 @@ class Contract:
         self.kind = 'external'; self.note = note; return self
     def fresh(self):
         self.fresh_result = True; return self
-    def native_gen(self, g):
-        self.gen = g; return self
+    def native_gen(self, g, quick=400, thorough=6000):
+        """generator of native inputs and the number of inputs (iterations 0..n-1, deterministic in the seed) evaluated per tier"""
+        self.gen = g; self.native_iters = {'quick': quick, 'thorough': thorough}; return self
     def ghost(self, code, at='entry'):
         (self.ghost_entry if at == 'entry' else self.ghost_exit).append(code); return self
     def prop(self, *ids):
